@@ -71,7 +71,14 @@ func (b *buffer) get(v wireType) {
 	if b.err = v.UnmarshalBinary(b.data[b.i:]); b.err != nil {
 		return
 	}
-	b.i += v.width()
+	w := v.width()
+	if b.i+w > len(b.data) {
+		// v claims more than the data holds, e.g. a zero length
+		// string keeps the previous value and its width
+		b.err = ErrMissingData
+		return
+	}
+	b.i += w
 }
 
 func (b *buffer) atEnd() bool {
